@@ -120,6 +120,16 @@ def run_versions(spec):
     import verif_rt
     setup_memento(spec["store"])
     mods = import_program(spec["pkgroot"], spec["pkg"], spec["modules"])
+    # optional in-process statements (re-binding / mutating a variable) executed after the import and after every
+    # version has been asked for once (so that the in-process version cache is warm), before the recorded queries
+    if spec.get("pre_cells"):
+        for mname, name in sorted(spec["query"]):
+            try:
+                getattr(mods[mname], name).version()
+            except BaseException:  # noqa
+                pass
+    for mname, src in spec.get("pre_cells", []):
+        exec_cell(mods[mname], src)
     versions = {}
     for mname, name in spec["query"]:
         fn = getattr(mods[mname], name)
